@@ -38,7 +38,8 @@ for c in $CHECKS; do
   res "check_${c}_quick_exit=$rcc $(grep -m1 'what:' $WT/SEED/check_$c.log | cut -c1-300)"
 done
 if [ $rc0 -eq 0 ] && [ $rc1 -ne 0 ] && [ $rct -eq 0 ]; then res "confirmed=yes"; else res "confirmed=no"; fi
-mkdir -p /verif/seeded/$ID
-cp $WT/SEED/patch.diff $WT/SEED/demo.sh $WT/SEED/meta.json $WT/SEED/verify.txt /verif/seeded/$ID/ 2>/dev/null
-for f in $WT/SEED/*; do case $(basename $f) in patch.diff|demo.sh|meta.json|verify.txt|*.log) ;; *) cp -r $f /verif/seeded/$ID/ ;; esac; done
-tail -c 1500 $WT/SEED/demo_with.log > /verif/seeded/$ID/demo_with_change.tail.log
+NAME=${SEED_NAME:-$ID}
+mkdir -p /verif/seeded/$NAME
+cp $WT/SEED/patch.diff $WT/SEED/demo.sh $WT/SEED/meta.json $WT/SEED/verify.txt /verif/seeded/$NAME/ 2>/dev/null
+for f in $WT/SEED/*; do case $(basename $f) in patch.diff|demo.sh|meta.json|verify.txt|*.log) ;; *) cp -r $f /verif/seeded/$NAME/ ;; esac; done
+tail -c 1500 $WT/SEED/demo_with.log > /verif/seeded/$NAME/demo_with_change.tail.log
